@@ -109,6 +109,12 @@ func knownFindingJobs() []*job {
 		{Group: "corpus", Tags: []string{"corpus:F84 user-defined function that calls itself without end"}, Stmts: []string{"DECLARE f FUNCTION () AS BEGIN RETURN f(); END", "SELECT f()"}, SmallLimit: true},
 		{Group: "corpus", Tags: []string{"corpus:F84 user-defined function that calls itself without end (argument, table)"}, Files: []fileSpec{{Name: "t.csv", Data: []byte("a\n1\n")}},
 			Stmts: []string{"DECLARE f FUNCTION (@n) AS BEGIN RETURN f(@n + 1); END", "SELECT f(a) FROM t"}, SmallLimit: true},
+		// F118 (fixed in /repo 6dd3cc3): a placeholder inside a USING list read itself without end (the value expressions
+		// of the list were evaluated in the reader's context); recognised by the evalPlaceholder frames of the dump
+		{Group: "corpus", Tags: []string{"corpus:F118 EXECUTE ... USING ? inside a prepared statement"},
+			Stmts: []string{"PREPARE pin FROM 'SELECT ? + 100'", "PREPARE pout FROM 'EXECUTE pin USING ?;'", "EXECUTE pout USING 5"}, SmallLimit: true},
+		{Group: "corpus", Tags: []string{"corpus:F118 OPEN ... USING ?, 4 inside a prepared statement"}, Files: []fileSpec{{Name: "t.csv", Data: []byte("id,v\n1,a\n2,b\n3,c\n4,d\n")}},
+			Stmts: []string{"PREPARE pick FROM 'SELECT id, v FROM t WHERE id > ? AND id < ?'", "DECLARE cur CURSOR FOR pick", "PREPARE e1 FROM 'OPEN cur USING ?, 4;'", "EXECUTE e1 USING 1", "PRINT CURSOR cur COUNT"}, SmallLimit: true},
 	}
 }
 
